@@ -98,6 +98,15 @@ def call(entry, formula, data, drop, overrides):
         return ModelSpec.from_spec(formula).get_model_matrix(data, drop_rows=drop, **overrides)
     if entry == "PandasMaterializer.get_model_matrix":
         return PandasMaterializer(data).get_model_matrix(formula, drop_rows=drop, **overrides)
+    if entry == "PandasMaterializer used for an earlier call":
+        # one materializer object serves two calls: the first (other formulas sharing the factors, its own drop set) must leave no trace
+        m = PandasMaterializer(data)
+        for warm in ("a", "A", "y ~ a + A"):
+            try:
+                m.get_model_matrix(warm, drop_rows=set(), **overrides)
+            except Exception:  # noqa - the warm-up calls are not the subject
+                pass
+        return m.get_model_matrix(formula, drop_rows=drop, **overrides)
     if entry in ("model_matrix(matrix, **overrides)", "model_matrix(spec, **overrides)", "PandasMaterializer.get_model_matrix(matrix, **overrides)"):
         # a matrix built earlier (on clean data, default policy) is re-used as the specification; the overrides must win
         clean = make_frame(len(data), (), (), (), "default")
@@ -111,7 +120,7 @@ def call(entry, formula, data, drop, overrides):
 
 
 ENTRIES = ["model_matrix", "Formula.get_model_matrix", "ModelSpec.from_spec(**opts).get_model_matrix",
-           "ModelSpec.get_model_matrix(**overrides)", "PandasMaterializer.get_model_matrix"]
+           "ModelSpec.get_model_matrix(**overrides)", "PandasMaterializer.get_model_matrix", "PandasMaterializer used for an earlier call"]
 
 
 def check_drop(col, key, formula, df, nulls, dropname, entry, output, detail):
@@ -259,12 +268,13 @@ def drv_narwhals(c, ctx, col):
     y_null = pattern(c, n, 1) if "y" in FORMULAS[formula][0] else ()
     dropname = c.pick(["none", "empty", "{0}"])
     policy = c.pick(["drop", "raise"])
-    df = make_frame(n, a_null, A_null, y_null, "default")
+    index_kind = c.pick(["default", "strings", "nonunique"]) if source == "narwhals/pandas" else "default"
+    df = make_frame(n, a_null, A_null, y_null, index_kind)
     data = pa.Table.from_pandas(df, preserve_index=False) if source == "narwhals/arrow" else df
     nulls = null_rows(formula, a_null, A_null, y_null)
     caller = DROPSETS[dropname]
-    key = "narwhals %r source=%s a_null=%s A_null=%s y_null=%s drop=%s output=%s policy=%s" % (
-        formula, source, a_null, A_null, y_null, dropname, output, policy)
+    key = "narwhals %r source=%s a_null=%s A_null=%s y_null=%s drop=%s output=%s policy=%s index=%s" % (
+        formula, source, a_null, A_null, y_null, dropname, output, policy, index_kind)
     detail = {"formula": formula, "source": source, "a_null": a_null, "A_null": A_null, "y_null": y_null, "drop_rows": dropname,
               "output": output, "policy": policy}
     opts = {"output": output}
@@ -299,6 +309,9 @@ def drv_narwhals(c, ctx, col):
         G, W = dense(g), dense(w)
         if G.shape != W.shape or not np.allclose(G, W, rtol=1e-12, atol=1e-12, equal_nan=True):
             col.violation(key, dict(detail, part=j, got=G.tolist(), want=W.tolist(), kept=kept), sig="narwhals:wrong-rows")
+            return
+        if output == "pandas" and source == "narwhals/pandas" and list(g.index) != list(df.index[kept]):
+            col.violation(key, dict(detail, part=j, index=list(g.index), expected_index=list(df.index[kept])), sig="narwhals:wrong-index")
             return
     if drop is not None and {int(i) for i in drop} != removed:
         col.violation(key, dict(detail, drop_set_after=sorted(int(i) for i in drop), expected=sorted(removed)), sig="narwhals:drop-set-not-updated")
